@@ -140,7 +140,9 @@ class SimpleOperationExecutor:
         try:
             result = self.file_comparison_result(
                 filename, file_comparison_name)
-        except FileNotFoundError:
+        except (FileNotFoundError, NotADirectoryError):
+            # NotADirectoryError: one of the parents is a regular file, so the
+            # file doesn't exist
             raise FileNotFoundError(
                 'The requested file does not exist: {:s}'.format(filename))
         except IsADirectoryError:
